@@ -64,28 +64,56 @@ theorem pushAll_append {β} (l m : List (Name × β)) (rel : List (Name × List 
     pushAll (l ++ m) rel = pushAll m (pushAll l rel) := by
   simp [pushAll, List.foldl_append]
 
-/-- the pushes one definition makes into `PossibleTypes` -/
+/-- pushes through `pushPtr` are the pushes of the non-nil pointers -/
+theorem foldl_pushPtr {α} (xs : List α) (f : α → Name × Option Name) (rel : Rel) :
+    xs.foldl (fun r a => pushPtr (f a).1 (f a).2 r) rel = pushAll ((xs.map f).filter (·.2.isSome)) rel := by
+  induction xs generalizing rel with
+  | nil => rfl
+  | cons a rest ih =>
+    simp only [List.foldl_cons, List.map_cons]
+    rw [ih]
+    cases h : (f a).2 with
+    | none => simp [pushPtr, List.filter, h]
+    | some n => simp only [List.filter, h, Option.isSome_some, pushAll, List.foldl_cons, pushPtr]
+
+theorem foldl_pushKV {α} (xs : List α) (f : α → Name × Option Name) (rel : Rel) :
+    xs.foldl (fun r a => pushKV (f a).1 (f a).2 r) rel = pushAll (xs.map f) rel := by
+  induction xs generalizing rel with
+  | nil => rfl
+  | cons a rest ih => simp only [List.foldl_cons, List.map_cons, pushAll] at ih ⊢; rw [ih]
+
+/-- a fold over pairs that treats the components independently -/
+theorem foldl_pair {α} (xs : List α) (F G : α → Rel → Rel) (p i : Rel) :
+    xs.foldl (fun (x : Rel × Rel) a => match x with
+      | (p, i) => (F a p, G a i)) (p, i) =
+    (xs.foldl (fun r a => F a r) p, xs.foldl (fun r a => G a r) i) := by
+  induction xs generalizing p i with
+  | nil => rfl
+  | cons a rest ih => simp only [List.foldl_cons]; rw [ih]
+
+/-- the pushes one definition makes into `PossibleTypes` (an undeclared union member is skipped) -/
 def possPushes (types : List (Name × Definition)) (d : Definition) : List (Name × Option Name) :=
   match d.kind with
-  | .union => d.types.map fun t => (d.name, ptrOf types t)
-  | .inputObject | .object => d.interfaces.map (fun i => (i, some d.name)) ++ [(d.name, some d.name)]
+  | .union => (d.types.map fun t => (d.name, ptrOf types t)).filter (·.2.isSome)
+  | .object => d.interfaces.map (fun i => (i, some d.name)) ++ [(d.name, some d.name)]
   | .interface => d.interfaces.map fun i => (i, some d.name)
-  | .scalar | .enum => []
+  | .scalar | .enum | .inputObject => []
 
-/-- … and into `Implements` -/
+/-- … and into `Implements` (an undeclared interface is skipped) -/
 def implPushes (types : List (Name × Definition)) (d : Definition) : List (Name × Option Name) :=
   match d.kind with
   | .union => d.types.map fun t => (t, some d.name)
-  | .inputObject | .object | .interface => d.interfaces.map fun i => (d.name, ptrOf types i)
-  | .scalar | .enum => []
+  | .object | .interface => (d.interfaces.map fun i => (d.name, ptrOf types i)).filter (·.2.isSome)
+  | .scalar | .enum | .inputObject => []
 
-theorem foldl_pair_pushes {α} (xs : List α) (f g : α → Name × Option Name) (p i : Rel) :
-    xs.foldl (fun (x : Rel × Rel) a => match x with
-      | (p, i) => (pushKV (f a).1 (f a).2 p, pushKV (g a).1 (g a).2 i)) (p, i) =
-    (pushAll (xs.map f) p, pushAll (xs.map g) i) := by
-  induction xs generalizing p i with
-  | nil => rfl
-  | cons a rest ih => simp only [List.foldl_cons, List.map_cons, pushAll] at ih ⊢; rw [ih]
+theorem interfaces_fold_eq (types : List (Name × Definition)) (d : Definition) (p i : Rel) :
+    d.interfaces.foldl (fun (x : Rel × Rel) intf => match x with
+      | (p, i) => (pushKV intf (some d.name) p, pushPtr d.name (ptrOf types intf) i)) (p, i) =
+    (pushAll (d.interfaces.map fun i => (i, some d.name)) p,
+     pushAll ((d.interfaces.map fun i => (d.name, ptrOf types i)).filter (·.2.isSome)) i) := by
+  rw [foldl_pair d.interfaces (fun intf r => pushKV intf (some d.name) r) (fun intf r => pushPtr d.name (ptrOf types intf) r)]
+  rw [foldl_pushKV d.interfaces (fun intf => (intf, some d.name)),
+      foldl_pushPtr d.interfaces (fun intf => (d.name, ptrOf types intf))]
 
 theorem relateDef_eq (types : List (Name × Definition)) (d : Definition) (p i : Rel) :
     relateDef types d (p, i) = (pushAll (possPushes types d) p, pushAll (implPushes types d) i) := by
@@ -93,18 +121,16 @@ theorem relateDef_eq (types : List (Name × Definition)) (d : Definition) (p i :
   cases d.kind
   · rfl
   · simp only
-    rw [foldl_pair_pushes d.interfaces (fun intf => (intf, some d.name)) (fun intf => (d.name, ptrOf types intf))]
+    rw [interfaces_fold_eq]
     simp only [pushAll_append]
     rfl
   · simp only
-    rw [foldl_pair_pushes d.interfaces (fun intf => (intf, some d.name)) (fun intf => (d.name, ptrOf types intf))]
+    rw [interfaces_fold_eq]
   · simp only
-    rw [foldl_pair_pushes d.types (fun t => (d.name, ptrOf types t)) (fun t => (t, some d.name))]
+    rw [foldl_pair d.types (fun t r => pushPtr d.name (ptrOf types t) r) (fun t r => pushKV t (some d.name) r)]
+    rw [foldl_pushPtr d.types (fun t => (d.name, ptrOf types t)), foldl_pushKV d.types (fun t => (t, some d.name))]
   · rfl
-  · simp only
-    rw [foldl_pair_pushes d.interfaces (fun intf => (intf, some d.name)) (fun intf => (d.name, ptrOf types intf))]
-    simp only [pushAll_append]
-    rfl
+  · rfl
 
 theorem foldl_relateDef (types : List (Name × Definition)) (ds : List Definition) (p i : Rel) :
     ds.foldl (fun pi d => relateDef types d pi) (p, i) =
